@@ -23,7 +23,10 @@ TITLES = {
     "A": ["~ASCII", "~A", "~Ascii Log Data", "~A  DEPT  C1  C2", "~a", "~ascii log data"],
 }
 CUSTOM_TITLES = ["~Tools", "~Drilling Notes", "~tools used", "~Remarks 2", "~Xtra", "~Inclinometry", "~Service company notes", "~zones"]
-STEER = [["NULL", "", "55.5"], ["WRAP", "", "YES"], ["VERS", "", "1.2"], ["DLM", "", "COMMA"], ["null", "", "55.5"], ["Vers", "", "3.0"]]
+STEER = [["NULL", "", "55.5"], ["WRAP", "", "YES"], ["VERS", "", "1.2"], ["DLM", "", "COMMA"], ["null", "", "55.5"], ["Vers", "", "3.0"],
+         # words of the LAS vocabulary that are ordinary mnemonics outside their home section (legend words, mandatory items, section words)
+         ["MNEM", "UNIT", "VALUE"], ["mnem", "unit", "data"], ["STRT", "M", "7.5"], ["STOP", "M", "9.5"], ["STEP", "M", "0.25"],
+         ["DEPT", "M", ""], ["ASCII", "", "1"], ["A", "", "2"], ["V", "", "3"], ["CURVE", "INFO", "4"], ["OTHER", "", "5"], ["COMP", "", "6"]]
 RULE = ("layouts: all 120 orders of {~W, ~C, ~P, ~O, custom} after ~V with ~A at each of the 6 positions (720, full grid) x "
         "title spelling per section from {word, letter only, trailing text, upper case, lower-case letter, lower-case word} "
         "(each spelling of each kind at least once in canonical order, random otherwise) x 0-3 extra custom sections x "
@@ -72,6 +75,8 @@ def grid(tier):
                 for engine in ("numpy", "normal"):
                     k += 1
                     yield {"order": order, "spell": {}, "seed": k, "engine": engine, "steer": [si, where], "extra": 0}
+                k += 1
+                yield {"order": order, "spell": {}, "seed": k, "engine": ["numpy", "normal"][k % 2], "steer": [si, where, ["first", "last"][si % 2] if order[0] == "X" else ["last", "first"][si % 2]], "extra": 0}
 
 
 def n_random(tier):
@@ -141,11 +146,13 @@ def build(case):
         else:
             secs.append({"kind": "X", "title": customs.pop(), "items": [["XX%d" % i, "xu", "xv%d" % i, t()] for i in range(rng.randint(0, 4))]})
     if case.get("steer"):
-        si, where = case["steer"]
+        si, where = case["steer"][:2]
         m, u, v = STEER[si]
         for s in secs:
             if s["kind"] == where:
                 pos = rng.randint(0, len(s["items"]))
+                if len(case["steer"]) > 2:
+                    pos = 0 if case["steer"][2] == "first" else len(s["items"])
                 s["items"].insert(pos, [m, u, v, t()])
                 if where == "C":
                     # a curve named like a steering item still needs its data column
